@@ -15,9 +15,13 @@ PID = 'C04'
 RULE = ('compositions of 1-5 volatile chemicals (family-restricted for the vapour-fraction / phase-boundary / iso-fugacity clauses, any for the ideal-package clause), every mole fraction >= 0.02 in the family clauses, '
         'with or without <= 2 mol % N2 (gas-locked) / glucose (solid-locked), F in 10^U(-2,3), T 280-450 K, P 2e4-1e6 Pa, V in (0.02,0.98), H/S between the V=0.02 and V=0.98 values, k in 10^U(-3,3). '
         'per composition: TP, PV, TV, PH, PS, TH, TS flashes, an independent TP re-flash, the ideal-package Rachford-Rice comparison and the scaled-feed flash. '
+        'added by the coverage audit: H / S flashes of a single chemical (alone, with a solid, with a gas) incl. targets just outside the saturated values, P exactly at Psat / the bubble / the dew pressure, P/V and T/V on every kind of '
+        'mixture (kept variable), scaling under PV, TV and PH, N2 and glucose together, the ideal-package Rachford-Rice comparison with N2 as non-partitioning gas, a feed that starts split over g / l, T/P -> P/V -> P/H chained on one stream, '
+        'VLE method shgo under the phase-boundary and iso-fugacity clauses. '
         'non-trivial = two-phase result; distinct = hash of the case')
 MIN_NONTRIVIAL = {'quick': 150, 'thorough': 4000}
-ASSUMPTIONS = ['fugacities are recomputed from thermo.Gamma / Phi / PCF and Chemical.Psat (the same model objects the flash uses)',
+ASSUMPTIONS = ['scaling under P/S is not judged: the liquid entropy functions of the property package (HEOS_FIT heat-capacity integrals of the thermo dependency) jump by whole J/mol/K between adjacent temperatures, so equal entropies do not identify equal states',
+               'fugacities are recomputed from thermo.Gamma / Phi / PCF and Chemical.Psat (the same model objects the flash uses)',
                'scaling bound 1e-5 of the feed (two fixed points converged to K_tol=1e-6; observed 3.3e-7 once in 24 000 compositions, otherwise 1e-15)', 'independent re-flash bound 5e-3 in vapour fraction (two fixed points converged to K_tol=1e-6 from different guesses); entropy bound 5e-3 of (S_vap - S_liq): the final entropy correction moves a fraction of one phase linearly while the mixing entropy is not linear (observed up to 1.3e-3 on cross-family mixtures); T-specified H/S and TV bounds follow from P_tol = 1 Pa times the slope across the two-phase window']
 FAM = {'alcohol': ('Methanol', 'Ethanol', 'Propanol', 'Butanol'), 'hydrocarbon': ('Hexane', 'Heptane', 'Octane', 'Benzene', 'Toluene')}
 ANY = ('Water', 'Acetone') + FAM['alcohol'] + FAM['hydrocarbon']
@@ -26,7 +30,10 @@ _locked = {}
 
 
 def required(tier):
-    return ['spec-TP', 'spec-H', 'spec-S', 'vapour-fraction', 'independent-reflash', 'phase-boundary', 'iso-fugacity', 'raoult-rr', 'scaling', 'single-component', 'with-inerts', 'spec-xy']
+    return ['spec-TP', 'spec-H', 'spec-S', 'vapour-fraction', 'independent-reflash', 'phase-boundary', 'iso-fugacity', 'raoult-rr', 'scaling', 'single-component', 'with-inerts', 'spec-xy',
+            # coverage audit
+            'single:PH', 'single:PS', 'single:TH', 'single:TS', 'single:at-Psat', 'single+gas:H/S', 'V-spec:any-kind', 'boundary:P=P_bubble', 'boundary:P=P_dew', 'raoult-rr:with-gas', 'with-inerts:gas-and-solute',
+            'initial-distribution', 'chained', 'method:shgo/inside']
 
 
 def chem(i):
@@ -61,19 +68,36 @@ def gen_case(rng):
             x = [rng.uniform(0.05, 1) for _ in ids]; s = sum(x); x = [v / s for v in x]
     inert = None
     if kind in ('any', 'single') and rng.random() < 0.5: inert = rng.choice(['N2', 'Glucose'])
-    return {'kind': kind, 'ids': ids, 'x': x, 'F': round(10 ** rng.uniform(-2, 3), 5), 'inert': inert, 'inert_frac': round(rng.uniform(0.001, 0.02), 5),
+    c = {'kind': kind, 'ids': ids, 'x': x, 'F': round(10 ** rng.uniform(-2, 3), 5), 'inert': inert, 'inert_frac': round(rng.uniform(0.001, 0.02), 5),
             'T': round(rng.uniform(280, 450), 2), 'P': round(10 ** rng.uniform(math.log10(2e4), 6), 1), 'V': round(rng.uniform(0.03, 0.97), 4), 'f': round(rng.uniform(0.05, 0.95), 4) if rng.random() < 0.65 else rng.choice([-0.015, -0.005, 0.002, 0.01, 0.03, 0.97, 0.99, 1.005, 1.015]),
             'k': round(10 ** rng.uniform(-3, 3), 6),
             # the state the stream is in BEFORE each flash: the specified values must be written, not merely kept
             'dT0': rng.choice([0.0, round(rng.uniform(-60, 60), 2), round(rng.uniform(-60, 60), 2)]), 'P0f': rng.choice([1.0, 0.5, 2.0, round(10 ** rng.uniform(-0.5, 0.5), 3)])}
+    # coverage audit: non-condensable gas AND non-volatile solute together; the ideal-package clause with a non-condensable gas; the feed initially vapour / split;
+    # the pressure exactly on the bubble / dew pressure; the Gibbs-minimising solver method
+    if kind == 'ideal' and rng.random() < 0.4: c['inert'] = 'N2'
+    c['inert2'] = ({'N2': 'Glucose', 'Glucose': 'N2'}[c['inert']] if (c['inert'] and rng.random() < 0.4) else None)
+    c['inert2_frac'] = round(rng.uniform(0.001, 0.02), 5)
+    c['dist0'] = [rng.choice([0.0, 1.0, round(rng.random(), 3), round(rng.random(), 3)]) for _ in ids]
+    c['boundary'] = rng.random() < 0.35
+    c['shgo'] = rng.random() < 0.3
+    c['shgo_inside'] = rng.random() < 0.75      # move the pressure of the shgo clause into the two-phase window when the random (T, P) is outside it
+    return c
 
 
-def make(case, th, scale=1.0):
+def make(case, th, scale=1.0, split=False):
     s = tmo.MultiStream(None, phases=('g', 'l'), T=max(255., case['T'] + case.get('dT0', 0.0)), P=case['P'] * case.get('P0f', 1.0), thermo=th)
     F = case['F'] * scale
     for i, v in zip(case['ids'], case['x']): s.imol['l', i] = v * F
     if case['inert']:
         s.imol['g' if case['inert'] == 'N2' else 'l', case['inert']] = case['inert_frac'] * F
+    if case.get('inert2'):
+        s.imol['g' if case['inert2'] == 'N2' else 'l', case['inert2']] = case['inert2_frac'] * F
+    if case.get('dist0') and split:
+        # the feed starts partly / entirely as vapour (each volatile chemical's own fraction)
+        for i, d in zip(case['ids'], case['dist0']):
+            if d:
+                v = s.imol['l', i]; s.imol['g', i] = v * d; s.imol['l', i] = v - v * d
     return s
 
 
@@ -101,13 +125,14 @@ REFUSE = ('InfeasibleRegion', 'NoEquilibrium', 'DomainError', 'NotImplementedErr
 def run_case(case, rec):
     rec.begin_case(case)
     kind = case['kind']
-    ids = list(case['ids']) + ([case['inert']] if case['inert'] else [])
+    ids = list(case['ids']) + ([case['inert']] if case['inert'] else []) + ([case['inert2']] if case.get('inert2') else [])
     th = thermo(ids, ideal=(kind == 'ideal'))
     tmo.settings.set_thermo(th)
     chems = th.chemicals
     vidx = [chems.index(i) for i in case['ids']]      # the volatile (equilibrium) chemicals
     T0, P0, V0 = case['T'], case['P'], case['V']
     if case['inert']: rec.hit('with-inerts')
+    if case.get('inert2'): rec.hit('with-inerts:gas-and-solute')
     two_phase = False
 
     def flash(s, **spec):
@@ -223,7 +248,8 @@ def run_case(case, rec):
                     got = row[0] / row.sum()
                     rec.check(abs(got - v) <= 1e-4, 'spec-xy', nm, f'vle({fixed}, {nm[1]}=[{v}, ...]) on {ids}: the {"liquid" if nm[1] == "x" else "vapour"} holds a fraction {got!r} of {case["ids"][0]}', residual=abs(got - v))
         # ---- H and S specifications
-        if kind != 'single':
+        if kind != 'single' or 'N2' in (case['inert'], case.get('inert2')):
+            if kind == 'single': rec.hit('single+gas:H/S')      # one volatile chemical diluted by a non-condensable gas: the general solver path (N = 2)
             for fixed_name, fixed in (('P', {'P': P0}), ('T', {'T': T0})):
                 probe = make(case, th)
                 if not flash(probe, V=0.02, **fixed): continue
@@ -261,7 +287,220 @@ def run_case(case, rec):
                         if fixed_name == 'P' and sbound < abs(got - target) <= 8.314462618 * s.F_mol * math.log(2.): sfx = '/first-order-correction-error'
                         rec.check(abs(got - target) <= sbound, 'spec-S', fixed_name + 'S' + sfx, f'vle({fixed}, S={target!r}) on {ids}: stream S = {got!r} (residual {abs(got - target) / rng_:.3g} of S_vap - S_liq)', residual=abs(got - target) / rng_)
                     if 0 < vfrac(s, vidx) < 1: two_phase = True
+        try:
+            if extra_clauses(case, rec, th, ids, vidx, flash): two_phase = True
+        except Exception as e:
+            rec.exception('harness', e, what=f'harness error in the additional clauses: {type(e).__name__}: {e}')
     if two_phase: rec.mark_nontrivial(case_hash(case))
+
+
+def rows_of(s):
+    return np.array([r.to_array() for r in s.imol.data.rows])
+
+
+def raoult_rr_light(z, K, zl):
+    """Rachford-Rice with a non-partitioning gas: z (volatile) and zl (gas-only) are fractions of the whole feed, V the vapour fraction of the whole feed.
+    sum(y) - sum(x) = sum z_i (K_i - 1) / (1 + V (K_i - 1)) + zl / V is decreasing in V and +inf at V -> 0."""
+    f = lambda V: (z * (K - 1) / (1 + V * (K - 1))).sum() + zl / V
+    if f(1.0) >= 0: return 1.0
+    lo, hi = 0.0, 1.0
+    for _ in range(200):
+        mid = 0.5 * (lo + hi)
+        if f(mid) > 0: lo = mid
+        else: hi = mid
+    return 0.5 * (lo + hi)
+
+
+def extra_clauses(case, rec, th, ids, vidx, flash):
+    """clauses added by the coverage audit; returns True when a two-phase result was judged"""
+    kind = case['kind']; chems = th.chemicals
+    T0, P0, V0, k = case['T'], case['P'], case['V'], case['k']
+    inert = case['inert']; two = False
+    Tstart = max(255., T0 + case.get('dT0', 0.0)); Pstart = P0 * case.get('P0f', 1.0)
+
+    # ---- single component, H / S specified: the dedicated one-chemical solvers (saturation line between the saturated liquid and vapour, outside it a one-phase state)
+    if kind == 'single' and 'N2' not in (inert, case.get('inert2')):
+        # (a solid-locked solute with N_solutes = 0 takes no part: still the one-chemical solvers)
+        c = chems[case['ids'][0]]
+        if inert: rec.hit('single+solid:H/S')
+        for fixed_name, fixed in (('P', {'P': P0}), ('T', {'T': T0})):
+            lo_s = make(case, th); hi_s = make(case, th)
+            if not (flash(lo_s, V=0.0, **fixed) and flash(hi_s, V=1.0, **fixed)): continue
+            for q in ('H', 'S'):
+                lo, hi = getattr(lo_s, q), getattr(hi_s, q)
+                if not (hi > lo): rec.refuse('single component: saturated vapour value not above the saturated liquid value'); continue
+                target = lo + case['f'] * (hi - lo)
+                s = make(case, th)
+                if not flash(s, **fixed, **{q: target}): continue
+                nm = fixed_name + q
+                rec.hit('single:' + nm)
+                rec.check(getattr(s, fixed_name) == fixed[fixed_name], 'spec-TP', 'single/' + nm, f'single component {c.ID}: vle({fixed}, {q}=...) left {fixed_name}={getattr(s, fixed_name)!r} (the stream started at T={Tstart}, P={Pstart})')
+                got = getattr(s, q)
+                nw = '' if getattr(s, fixed_name) == fixed[fixed_name] else f'/{fixed_name}-not-written'      # the stream is not at the specified T (P): its H / S is evaluated elsewhere
+                if q == 'H':
+                    C = s.C
+                    rec.check(abs(got - target) <= 1e-5 * C, 'spec-H', 'single/' + nm + nw, f'single component {c.ID}: vle({fixed}, H={target!r}): stream H = {got!r} (residual {abs(got - target) / C:.3g} K*C)', residual=abs(got - target) / C)
+                elif not (0 < case['f'] < 1):
+                    # a one-phase state is located by solving S(T) = target, and the pure-component liquid entropy functions of the package are step functions of T
+                    # (2 J/mol/K steps for benzene): the target cannot be reproduced closer than a step, which is not the flash's doing
+                    rec.refuse('single component, S outside the saturated values: entropy reproduction not judged (entropy functions are not continuous in T)')
+                else:
+                    rec.check(abs(got - target) <= 5e-3 * (hi - lo), 'spec-S', 'single/' + nm + nw, f'single component {c.ID}: vle({fixed}, S={target!r}): stream S = {got!r} (residual {abs(got - target) / (hi - lo):.3g} of S_vap - S_liq)', residual=abs(got - target) / (hi - lo))
+                if 0 < case['f'] < 1:
+                    # on the saturation line: the other variable is the saturation value and the vapour fraction is the position between the saturated states
+                    if fixed_name == 'P':
+                        Ts = c.Tsat(P0, check_validity=False)
+                        rec.check(abs(s.T - Ts) <= 1e-9 * Ts, 'single-component', nm + '/T', f'single component {c.ID}: vle(P={P0}, {q} between the saturated values) left T={s.T!r} but Tsat(P)={Ts!r}')
+                    else:
+                        Ps = c.Psat(T0)
+                        rec.check(abs(s.P - Ps) <= 1e-9 * Ps, 'single-component', nm + '/P', f'single component {c.ID}: vle(T={T0}, {q} between the saturated values) left P={s.P!r} but Psat(T)={Ps!r}')
+                    rec.check(abs(vfrac(s, vidx) - case['f']) <= 1e-6, 'single-component', nm + '/V', f'single component {c.ID}: vle({fixed}, {q} at {case["f"]} between the saturated values) gives vapour fraction {vfrac(s, vidx)!r}')
+        # P exactly at the saturation pressure: any split is an equilibrium; T and P are written
+        Ps = c.Psat(T0)
+        s = make(case, th)
+        if flash(s, T=T0, P=Ps):
+            rec.hit('single:at-Psat')
+            rec.check(s.T == T0 and s.P == Ps, 'spec-TP', 'single/TP-at-Psat', f'single component {c.ID}: vle(T={T0}, P=Psat(T)={Ps!r}) left T={s.T!r}, P={s.P!r}')
+
+    # ---- V specifications for every kind of mixture (outside the family class only the kept variable is judged)
+    if kind != 'single' and (kind != 'family' or inert):
+        for nm, spec, fixed in (('PV', {'P': P0, 'V': V0}, 'P'), ('TV', {'T': T0, 'V': V0}, 'T')):
+            s = make(case, th)
+            if not flash(s, **spec): continue
+            rec.hit('V-spec:any-kind')
+            rec.check(getattr(s, fixed) == spec[fixed], 'spec-TP', nm + '/any-mixture', f'vle({spec}) on {ids} ({kind}) left {fixed}={getattr(s, fixed)!r} (the stream started at T={Tstart}, P={Pstart})')
+            if 0 < vfrac(s, vidx) < 1: two = True
+
+    # ---- scaling under the other specification pairs: k * feed with the extensive specification (H, S) multiplied by k
+    if kind == 'any': rec.refuse('scaling under V / H specifications on a cross-family non-ideal mixture: not judged (the vapour-fraction clauses are restricted to families: V(T) is not single-valued near a heteroazeotrope)')
+    if kind in ('family', 'ideal'):
+        base = {}
+        for nm, spec in (('PV', {'P': P0, 'V': V0}), ('TV', {'T': T0, 'V': V0})):
+            a = make(case, th); b = make(case, th, scale=k)
+            if not (flash(a, **spec) and flash(b, **spec)): continue
+            base[nm] = a
+            ra, rb = rows_of(a), rows_of(b); F = ra.sum()
+            bound = 1e-5
+            if nm == 'TV':
+                # the pressure is located to P_tol = 1 Pa in each of the two runs: translate to flows with the width of the two-phase window
+                pr = make(case, th)
+                if flash(pr, T=T0, V=0.02):
+                    pa = pr.P
+                    if flash(pr, T=T0, V=0.98): bound = max(1e-5, 10 * 0.96 / max(abs(pa - pr.P), 1e-9))
+            dev = float(np.abs(rb - k * ra).max() / (F * k))
+            rec.check(dev <= bound, 'scaling', nm, f'vle({spec}) of {k}*feed is not {k} times the flash of the feed: max deviation {dev:.3g} of the feed ({ids})', residual=dev)
+            # V is located to V_tol = 1e-6 in each run; with dT/dV below 100 K across the two-phase window the temperatures agree to 1e-4 K
+            if nm == 'PV': rec.check(abs(a.T - b.T) <= 1e-4, 'scaling', 'PV/T', f'vle({spec}): feed gives T={a.T!r}, {k}*feed gives T={b.T!r}', residual=abs(a.T - b.T))
+            else: rec.check(abs(a.P - b.P) <= 2.0 + 1e-9 * a.P, 'scaling', 'TV/P', f'vle({spec}): feed gives P={a.P!r}, {k}*feed gives P={b.P!r}', residual=abs(a.P - b.P))
+        if 'PV' in base:
+            a0 = base['PV']
+            for q in ('H',):
+                # (not done for S: the liquid entropy functions of the property package are not smooth in T at the 1e-13 K level - values jump by whole J/mol/K
+                #  between adjacent temperatures - so two runs that end one ulp apart in T reproduce 'the same' S at visibly different splits)
+                target = getattr(a0, q)          # the enthalpy of the two-phase state at (P0, V0)
+                a = make(case, th); b = make(case, th, scale=k)
+                if not (flash(a, P=P0, **{q: target}) and flash(b, P=P0, **{q: target * k})): continue
+                ra, rb = rows_of(a), rows_of(b); F = ra.sum()
+                dev = float(np.abs(rb - k * ra).max() / (F * k))
+                # H is reproduced exactly by the final correction in both runs; the split then agrees to the temperature resolution (bound as for the T/P flash)
+                rec.check(dev <= 1e-5, 'scaling', 'P' + q, f'vle(P={P0}, {q}=...) of {k}*feed (with {q} multiplied by {k}) is not {k} times the flash of the feed: max deviation {dev:.3g} of the feed ({ids})', residual=dev)
+
+    # ---- the pressure exactly on the bubble / dew pressure the flash itself computes (families): all liquid at the bubble pressure, all vapour at the dew pressure
+    if kind == 'family' and not inert and case.get('boundary'):
+        try:
+            pr = make(case, th); v = pr.vle; v._setup()
+            Pb = float(v._bubble_point.solve_Py(v._z, T0)[0]); Pd = float(v._dew_point.solve_Px(v._z, T0)[0])
+        except Exception as e:
+            rec.refuse(f'bubble/dew point unavailable: {type(e).__name__}'); Pb = Pd = None
+        if Pb is not None and Pd < Pb:
+            s = make(case, th)
+            if flash(s, T=T0, P=Pb):
+                rec.hit('boundary:P=P_bubble')
+                rec.check(vfrac(s, vidx) == 0.0 and s.P == Pb and s.T == T0, 'phase-boundary', 'at-bubble', f'P = P_bubble = {Pb!r} at T={T0}: vapour fraction {vfrac(s, vidx)!r}, T={s.T!r}, P={s.P!r} ({ids}, z={case["x"]})')
+            s = make(case, th)
+            if flash(s, T=T0, P=Pd):
+                rec.hit('boundary:P=P_dew')
+                rec.check(vfrac(s, vidx) == 1.0 and s.P == Pd and s.T == T0, 'phase-boundary', 'at-dew', f'P = P_dew = {Pd!r} at T={T0}: vapour fraction {vfrac(s, vidx)!r}, T={s.T!r}, P={s.P!r} ({ids}, z={case["x"]})')
+
+    # ---- ideal package with a non-condensable gas (and a solid that takes no part): Rachford-Rice with a non-partitioning fraction
+    if kind == 'ideal' and inert == 'N2':
+        s = make(case, th)
+        if flash(s, T=T0, P=P0):
+            F = case['F']; zv = np.array(case['x']) * F; nl = case['inert_frac'] * F
+            Ft = zv.sum() + nl                        # the solid-locked solute (N_solutes = 0) does not dilute either phase
+            z = zv / Ft; zl = nl / Ft
+            cs = [chems[i] for i in case['ids']]
+            K = np.array([c.Psat(T0) for c in cs]) / P0
+            V = raoult_rr_light(z, K, zl)
+            if V >= 1.0: exp_g, exp_l = zv, np.zeros_like(zv)
+            else:
+                xl = z / (1 + V * (K - 1)); exp_l = (1 - V) * Ft * xl; exp_g = zv - exp_l
+            g = s.imol['g'].to_array()[vidx]; l = s.imol['l'].to_array()[vidx]
+            dev = float(max(np.abs(g - exp_g).max(), np.abs(l - exp_l).max()) / F)
+            rec.hit('raoult-rr:with-gas')
+            rec.check(dev <= 1e-6, 'raoult-rr', 'TP/non-condensable', f'ideal-package flash with {case["inert_frac"]} N2 differs from the Raoult Rachford-Rice split (non-partitioning gas) by {dev:.3g} of the feed (V model {V!r}; {ids}, z={case["x"]}, T={T0}, P={P0})', residual=dev)
+            if 0 < V < 1: two = True
+
+    # ---- the Gibbs-minimising solver method offered by VLE (vle.method = 'shgo'): same phase-boundary and iso-fugacity conditions at specified T and P
+    if kind == 'family' and not inert and case.get('shgo'):
+        z = np.array(case['x']); cs = tuple(chems[i] for i in case['ids'])
+        try:
+            Pb = eq.BubblePoint(cs, th).solve_Py(z.copy(), T0)[0]; Pd = eq.DewPoint(cs, th).solve_Px(z.copy(), T0)[0]
+        except Exception as e:
+            rec.refuse(f'bubble/dew point unavailable: {type(e).__name__}'); Pb = Pd = None
+        if Pb is not None:
+            P0_case = P0
+            if not (Pd * (1 + 1e-4) < P0 < Pb * (1 - 1e-4)) and Pd < Pb and case.get('shgo_inside'):
+                P_in = float(Pd + V0 * (Pb - Pd))            # three times out of four a pressure inside the two-phase window (random T, P seldom are)
+                if 2e4 <= P_in <= 1e6: P0 = P_in
+            s = make(case, th); s.vle.method = 'shgo'
+            if flash(s, T=T0, P=P0):
+                rec.hit('method:shgo')
+                rec.check(s.T == T0 and s.P == P0, 'spec-TP', 'TP/method=shgo', f'vle(T={T0}, P={P0}) with method shgo left T={s.T!r}, P={s.P!r}')
+                Vs = vfrac(s, vidx)
+                if P0 >= Pb * (1 + 1e-6): rec.check(Vs == 0.0, 'phase-boundary', 'above-bubble/method=shgo', f'P={P0} >= P_bubble={Pb!r} at T={T0} but vapour fraction is {Vs!r} ({ids}, z={z.tolist()})')
+                elif P0 <= Pd * (1 - 1e-6): rec.check(Vs == 1.0, 'phase-boundary', 'below-dew/method=shgo', f'P={P0} <= P_dew={Pd!r} at T={T0} but vapour fraction is {Vs!r} ({ids}, z={z.tolist()})')
+                elif Pd * (1 + 1e-4) < P0 < Pb * (1 - 1e-4):
+                    rec.hit('method:shgo/inside')
+                    rec.check(0.0 < Vs < 1.0, 'phase-boundary', 'inside/method=shgo', f'P_dew={Pd!r} < P={P0} < P_bubble={Pb!r} at T={T0} but method shgo returns vapour fraction {Vs!r} ({ids}, z={z.tolist()})')
+                if 0.0 < Vs < 1.0:
+                    g = s.imol['g'].to_array()[vidx]; l = s.imol['l'].to_array()[vidx]
+                    y = g / g.sum(); x = l / l.sum()
+                    Psat = np.array([c.Psat(T0) for c in cs])
+                    gam = th.Gamma(cs)(x.copy(), T0); phi = th.Phi(cs)(y.copy(), T0, P0); pcf = th.PCF(cs)(T0, P0, Psat)
+                    fl = x * gam * Psat * pcf; fg = y * phi * P0
+                    dev = float((np.abs(fl - fg) / fg).max())
+                    rec.check(dev <= 1e-4, 'iso-fugacity', 'TP/method=shgo', f'liquid and vapour fugacities differ by {dev:.3g} (relative) after vle(T={T0}, P={P0}) with method shgo on {ids}: f_l={fl.tolist()}, f_g={fg.tolist()}', residual=dev)
+                    two = True
+            P0 = P0_case
+
+    # ---- the feed initially vapour / split, and a chain of calls with different specifications on the one stream (remembered K, V, T)
+    if kind == 'family' and not inert:
+        ref = make(case, th); s = make(case, th, split=True)
+        if flash(ref, T=T0, P=P0) and flash(s, T=T0, P=P0):
+            rec.hit('initial-distribution')
+            rec.check(s.T == T0 and s.P == P0, 'spec-TP', 'TP/initial-distribution', f'vle(T={T0}, P={P0}) on a feed that starts split over g / l left T={s.T!r}, P={s.P!r}')
+            Va, Vb = vfrac(ref, vidx), vfrac(s, vidx)
+            rec.check(abs(Va - Vb) <= 5e-3, 'independent-reflash', 'initial-distribution', f'vle(T={T0}, P={P0}) on {ids}: vapour fraction {Va!r} from an all-liquid feed but {Vb!r} from the same feed split {case["dist0"]} over g / l', residual=abs(Va - Vb))
+            # chain: P,V then P,H on the same stream
+            if flash(s, P=P0, V=V0):
+                Vg = vfrac(s, vidx)
+                rec.hit('chained')
+                rec.check(s.P == P0, 'spec-TP', 'PV/chained', f'vle(P={P0}, V={V0}) after a T/P flash on the same stream left P={s.P!r}')
+                rec.check(abs(Vg - V0) <= 1e-5, 'vapour-fraction', 'PV/chained', f'vle(P={P0}, V={V0}) after a T/P flash on the same stream: vapour fraction {Vg!r}', residual=abs(Vg - V0))
+                fr = make(case, th)
+                if flash(fr, P=P0, V=V0):
+                    rec.check(abs(fr.T - s.T) <= 1e-6, 'independent-reflash', 'PV/chained', f'vle(P={P0}, V={V0}): T={s.T!r} after a T/P flash on the same stream but {fr.T!r} on a fresh stream', residual=abs(fr.T - s.T))
+                    # move along the two-phase line with H, on the stream that remembers the P/V solution
+                    pr = make(case, th)
+                    if flash(pr, P=P0, V=min(0.98, max(0.02, 1 - V0))):
+                        target = pr.H
+                        if flash(s, P=P0, H=target):
+                            C = s.C
+                            rec.check(s.P == P0, 'spec-TP', 'PH/chained', f'vle(P={P0}, H=...) after T/P and P/V flashes on the same stream left P={s.P!r}')
+                            rec.check(abs(s.H - target) <= 1e-5 * C, 'spec-H', 'PH/chained', f'vle(P={P0}, H={target!r}) after T/P and P/V flashes on the same stream: stream H = {s.H!r} (residual {abs(s.H - target) / C:.3g} K*C)', residual=abs(s.H - target) / C)
+                two = True
+    return two
 
 
 def replay(case, rec):
@@ -269,7 +508,7 @@ def replay(case, rec):
 
 
 def run(rec, rng, tier, shard, nshards):
-    n = 90 if tier == 'quick' else 1500
+    n = 100 if tier == 'quick' else 1650
     for i in range(n):
         case = gen_case(rng)
         try:
